@@ -1,5 +1,5 @@
 (** C19 — Task mutators, their recorded operations and the task model agree. *)
-From TC Require Import Model.Task Model.TaskMut Proofs.TaskMutP Proofs.TagsP Proofs.UdaP.
+From TC Require Import Model.Task Model.TaskMut Proofs.TaskMutP Proofs.TagsP Proofs.UdaP Proofs.SynthP.
 From Coq Require Import Strings.String.
 
 (** For any sequence of mutator calls (refused ones change nothing) on a task
@@ -140,6 +140,43 @@ Theorem C19_refused_uda_is_noop : forall nowstr s k v l,
   run_mutators nowstr s (MRemoveUda k :: l) = run_mutators nowstr s l.
 Proof. exact refused_uda_is_noop. Qed.
 
+(** The synthetic tags and the dependency map reflect exactly the stored
+    status, start/wait times and dependency keys. *)
+Theorem C19_synth_status : forall ts_min ts_max now t dm u,
+  (s2l "PENDING" ∈ synthetic_tags ts_min ts_max now t dm u <-> get_status t = StPending) /\
+  (s2l "COMPLETED" ∈ synthetic_tags ts_min ts_max now t dm u <-> get_status t = StCompleted) /\
+  (s2l "DELETED" ∈ synthetic_tags ts_min ts_max now t dm u <-> get_status t = StDeleted).
+Proof. intros. split; [apply synth_pending|split; [apply synth_completed|apply synth_deleted]]. Qed.
+
+Theorem C19_synth_active : forall ts_min ts_max now t dm u,
+  s2l "ACTIVE" ∈ synthetic_tags ts_min ts_max now t dm u <-> is_Some (t !! s2l "start").
+Proof. exact synth_active. Qed.
+
+Theorem C19_synth_waiting : forall ts_min ts_max now t dm u,
+  s2l "WAITING" ∈ synthetic_tags ts_min ts_max now t dm u <->
+  exists z, get_timestamp ts_min ts_max t (s2l "wait") = Some z /\ (now < z)%Z.
+Proof. exact synth_waiting. Qed.
+
+Theorem C19_synth_blocked : forall ts_min ts_max now t dm u,
+  (s2l "BLOCKED" ∈ synthetic_tags ts_min ts_max now t dm u <-> exists d, (u, d) ∈ dm) /\
+  (s2l "UNBLOCKED" ∈ synthetic_tags ts_min ts_max now t dm u <-> ~ exists d, (u, d) ∈ dm) /\
+  (s2l "BLOCKING" ∈ synthetic_tags ts_min ts_max now t dm u <-> exists a, (a, u) ∈ dm).
+Proof. intros. split; [apply synth_blocked|split; [apply synth_unblocked|apply synth_blocking]]. Qed.
+
+Theorem C19_synth_only_names : forall ts_min ts_max now t dm u x,
+  x ∈ synthetic_tags ts_min ts_max now t dm u -> x ∈ synthetic_names.
+Proof. intros ts_min ts_max now t dm u x. exact (synth_only_names ts_min ts_max now (fun _ => None) t dm u x). Qed.
+
+Theorem C19_depmap_exact : forall parse_uuid (tasks : gmap N tmap) ws u d,
+  (u, d) ∈ depmap parse_uuid tasks ws <->
+  Some u ∈ tail ws /\ exists t, tasks !! u = Some t /\ d ∈ dependencies parse_uuid t /\ is_pending_task tasks d = true.
+Proof. exact depmap_elem. Qed.
+
+Theorem C19_gone_or_closed_blocks_nobody : forall parse_uuid (tasks : gmap N tmap) ws u d,
+  (tasks !! d = None \/ exists t, tasks !! d = Some t /\ t !! k_status <> Some (s2l "pending")) ->
+  (u, d) ∉ depmap parse_uuid tasks ws.
+Proof. exact gone_or_closed_blocks_nobody. Qed.
+
 Print Assumptions C19_held_equals_stored.
 Print Assumptions C19_mutator_keeps_agreement.
 Print Assumptions C19_modified_once_first.
@@ -166,3 +203,10 @@ Print Assumptions C19_remove_uda_gone.
 Print Assumptions C19_other_udas_untouched.
 Print Assumptions C19_reserved_never_listed.
 Print Assumptions C19_refused_uda_is_noop.
+Print Assumptions C19_synth_status.
+Print Assumptions C19_synth_active.
+Print Assumptions C19_synth_waiting.
+Print Assumptions C19_synth_blocked.
+Print Assumptions C19_synth_only_names.
+Print Assumptions C19_depmap_exact.
+Print Assumptions C19_gone_or_closed_blocks_nobody.
